@@ -429,3 +429,65 @@ def entry_points(ctx):
     ok = first_if is not None and norm(first_if.test) == 'not %s' % hu.params[0] and norm(first_if.body[0]) == 'return {}'
     ctx.ob(ok, hu, 'no target text means an empty object')
     ctx.floor(7)
+
+
+@rule('C19.8')
+def unreadable_target_file_is_a_usage_error(ctx):
+    """reading the target file fails in two ways: the file cannot be opened / read (OSError) or its
+    bytes are not text in the default encoding (UnicodeDecodeError, a ValueError).  Both are "an
+    unreadable target" and must reach the user as a usage error, not as a traceback"""
+    p = ctx.program
+    u = ctx.unit('cli.mw_get_target')
+    cfg = ctx.cfg(u)
+    reads = [n for n in cfg.nodes if n.kind in ('stmt', 'with') and n.ast is not None and any(
+        isinstance(c, ast.Call) and is_name(c.func, 'open') and c.args and is_name(c.args[0], 'target_file') for c in ast.walk(n.ast))]
+    ctx.require(len(reads) >= 1, 'mw_get_target: the read of the target file not found')
+    # every statement that opens or reads the file (``open(..).read()``, or ``with open(..) as f: f.read()``)
+    nodes = set(reads)
+    for n in reads:
+        if n.kind == 'with':
+            nodes.update(x for x in cfg.nodes if x.ast is not None and any(x.ast is y for y in ast.walk(n.ast)) and x.kind == 'stmt')
+    for n in sorted(nodes, key=lambda x: x.lineno):
+        hs = cfg.handlers_reached_from(n)
+        for cls_ in ('OSError', 'UnicodeDecodeError'):
+            cov = [h for h in hs if handler_covers(cfg, h, cls_)]
+            ok = bool(cov)
+            if ok:
+                # ... and converted
+                ok = all(any(isinstance(s, ast.Raise) and isinstance(s.exc, ast.Call) and is_name(s.exc.func, 'UsageError')
+                             for s in ast.walk(h.ast)) for h in cov)
+            ctx.ob(ok, u, 'a target file that cannot be read (%s) is reported as a usage error: %s' % (cls_, norm(n.ast)[:50]),
+                   '' if ok else '%s escapes as a traceback' % cls_, node=n.ast)
+    ctx.floor(2)
+
+
+FS_PROBES = {'os.path.isfile', 'os.path.exists', 'os.path.isdir', 'os.path.islink', 'os.access', 'os.stat', 'os.lstat',
+             'os.path.getsize', 'os.listdir', 'os.scandir', 'glob.glob', 'pathlib.Path'}
+
+
+@rule('C19.9')
+def target_source_is_chosen_by_the_arguments(ctx):
+    """where the target comes from is decided by the command line alone -- a target argument is
+    data, --target-file names a file, '-' / no argument means standard input -- and whether a
+    named file can be read is found out by opening it.  The CLI therefore does not probe the file
+    system: an ``os.path.isfile`` test turns an argument that happens to name a file into that
+    file's content, or refuses readable non-regular files (pipes, /dev/stdin)"""
+    p = ctx.program
+    n = 0
+    for q in ('cli.mw_get_target', 'cli.mw_handle_target', 'cli.glom_cli'):
+        u = ctx.unit(q)
+        for c in calls_in(u):
+            n += 1
+            cq = callee_qual(p, u, c)
+            bad = cq in FS_PROBES or cq.startswith('os.path.') or cq.startswith('pathlib.')
+            if bad:
+                ctx.ob(False, u, 'the CLI does not probe the file system: %s' % norm(c)[:60],
+                       'the source of the target would depend on what exists in the current directory', node=c)
+    u = ctx.unit('cli.mw_get_target')
+    opens = [c for c in calls_in(u) if is_name(c.func, 'open')]
+    ok = len(opens) == 2 and all(c.args and is_name(c.args[0]) and c.args[0].id in ('spec_file', 'target_file') for c in opens)
+    ctx.ob(ok, u, 'only the files named by --spec-file / --target-file are opened: %s' % [norm(c) for c in opens])
+    rebound = [x.id for x in u.own_nodes() if isinstance(x, ast.Name) and isinstance(x.ctx, ast.Store) and x.id in ('spec_file', 'target_file')]
+    ctx.ob(not rebound, u, 'the file options are used as given', '' if not rebound else '%s rebound' % rebound)
+    ctx.ob(n >= 10, u, 'calls screened: %d' % n)
+    ctx.floor(3)
